@@ -198,13 +198,13 @@ CHECKS = {
         "title": "Only governance changes parameters, and stored parameters stay valid",
         "level": "exploration",
         "technique": "stateful property-based testing (rapid state machine) over the seven parameter-update messages x authority strings x valid / mutated / partially valid payloads; invariant + exact-effect oracle after every step",
-        "tests": [T("TestC13", 400, 2000, qshards=2, steps=40)],
+        "tests": [T("TestC13", 400, 2000, qshards=2, steps=40), T("TestC13ABCI", 40, 300, tshards=4)],
         "rule": "cases = generated valid minter and distributor configurations, then a rapid state machine (avg 40 steps): blocks (the minter's current period advances), pool creation, minter MsgUpdateParams / MsgUpdateMintersParams (valid around the current period, or one of 10 invalidating mutations; denomination from {uc4e, uatom, '', x}), distributor MsgUpdateParams (valid or one of 5 mutations), MsgUpdateSubDistributorParam (a drawn sub-distributor under an existing or unknown name - individually valid, possibly breaking the whole-configuration ordering rule), destination-share and burn-share updates (pool values, values making the sum >= 1, out-of-range values, unknown names), MsgUpdateDenomParam; authority drawn from {gov x3, a user, a module address, '', garbage}. Real path: ValidateBasic then the registered handler with baseapp semantics. "
                 "After every step: the stored parameters of the three modules validate, the minter's current period is in the stored configuration, a non-governance authority is rejected, a rejected message leaves all three parameter sets byte-identical, an accepted message stores exactly its documented effect (full replacement / minters+start / one sub-distributor / one share / one burn share / denomination), the vesting denomination never changes while pools exist. Non-trivial = a rejected update after at least two accepted partial updates. Distinct = SHA-256 of the history.",
         "min_nontrivial_fraction": 0.2,
         "min_class_fraction": {"non_gov_authority": 0.5, "invalid_minter_payload": 0.2, "invalid_distributor_payload": 0.2, "some_update_accepted": 0.5},
         "level_text": "Sequences of full and partial updates are applied through the registered handlers and the stored parameters are compared, as canonical JSON, with the documented effect of each accepted message and with the unchanged pre-state for each rejected one.",
-        "level_note": "Signature verification (a user cannot sign for the governance address) is x/auth's ante handler and is exercised in ABCI mode by C11/C12, not here.",
+        "level_note": "TestC13ABCI adds the transaction level: every one of the seven update messages in a transaction signed by a user key, with the user's or the governance address as authority, must be rejected (ValidateBasic / handler / signature verification) and leave all parameters unchanged.",
         "design_ref": "DESIGN.md §5 C13",
     },
     "C11": {
